@@ -12,6 +12,7 @@ import Glb.Model.Strutil
 
 namespace Glb.Tie.TrStrutil
 open Glb.Go Glb.Tr.Strutil
+open Glb.Config (isLower isUpper isDigit)
 
 /-! ### IsDigitString -/
 
@@ -94,5 +95,107 @@ theorem SliceContain_eq (slice : List Bytes) (value : Bytes) :
       omega
   · simp
   · simp; omega
+
+/-! ### Camelize -/
+
+/-- the value of Camelize's `upper` variable when its loop ends (not used by the code after the
+    loop, needed only to name the loop's final state) -/
+def camUpperGo : Bool → Bool → Bytes → Bool
+  | u, _, [] => u
+  | upper, ne, c :: rest =>
+    if isLower c then camUpperGo false true rest
+    else if isUpper c then camUpperGo false true rest
+    else if isDigit c then camUpperGo upper true rest
+    else camUpperGo (ne || upper) ne rest
+
+theorem Camelize_eq (s : Bytes) (upper : Bool) :
+    Camelize s upper = .ok (Glb.Aux.Str.camelize s upper) := by
+  unfold Camelize
+  dsimp only
+  rw [loop_eq (σ := Bool × Bytes × Int) (ρ := Bytes)
+    (Inv := fun st => 0 ≤ st.2.2 ∧ st.2.2 ≤ s.length)
+    (measure := fun st => ((s.length : Int) - st.2.2).toNat)
+    (model := fun st => .ok (.inl
+      (camUpperGo st.1 (decide ((st.2.1.length : Int) > 0)) (s.drop st.2.2.toNat),
+       st.2.1 ++ Glb.Aux.Str.camelizeGo st.1 (decide ((st.2.1.length : Int) > 0)) (s.drop st.2.2.toNat),
+       (s.length : Int))))]
+  · simp [bind, Except.bind, pure, Except.pure, Glb.Aux.Str.camelize, Glb.Go.toStr]
+  · intro ⟨u, buf, i⟩ ⟨h0, hl⟩
+    dsimp only at h0 hl
+    obtain ⟨n, rfl⟩ : ∃ n : Nat, i = n := ⟨i.toNat, by omega⟩
+    simp only [StepOK, pure, Except.pure, len_eq, Int.toNat_natCast]
+    by_cases hn : n < s.length
+    · obtain ⟨c, rest, hd⟩ : ∃ c rest, s.drop n = c :: rest := by
+        cases h : s.drop n with
+        | nil => have := length_of_drop_nil s n h; omega
+        | cons c rest => exact ⟨c, rest, rfl⟩
+      have hc := idx_drop s n c rest hd
+      have hrest := drop_succ_of_drop s n c rest hd
+      have hn' : ((n : Int) < (s.length : Int)) := by omega
+      have hn1 : ((n : Int) + 1).toNat = n + 1 := by omega
+      simp only [hn', decide_true, hc, bind, Except.bind, hd, Glb.Aux.Str.camelizeGo, camUpperGo,
+        isLower, isUpper, isDigit]
+      by_cases h1 : (decide (97 ≤ c) && decide (c ≤ 122)) = true
+      · cases u <;>
+          simp [h1, hn1, hrest] <;> omega
+      · by_cases h2 : (decide (65 ≤ c) && decide (c ≤ 90)) = true
+        · cases u <;>
+            simp [h1, h2, hn1, hrest] <;> omega
+        · by_cases h3 : (decide (48 ≤ c) && decide (c ≤ 57)) = true
+          · simp [h1, h2, h3, hn1, hrest] <;> omega
+          · simp [h1, h2, h3, hn1, hrest] <;> omega
+    · have hn' : ¬ ((n : Int) < (s.length : Int)) := by omega
+      have : s.drop n = [] := List.drop_of_length_le (by omega)
+      simp [hn', this, Glb.Aux.Str.camelizeGo, camUpperGo]
+      omega
+  · simp
+  · simp; omega
+
+/-! ### ShellEscape, ShellEscapeExceptTilde -/
+
+/-- the translator's `strings.Replace(s, old, new, -1)` is the model's `replaceGo … (-1)` when `old`
+    is a single byte (enough fuel: more than `len s`) -/
+private theorem replaceAllAux_single (q : UInt8) (new : Bytes) :
+    ∀ (s : Bytes) (f : Nat), s.length < f →
+      Lib.replaceAllAux [q] new f s = Glb.Strutil.replaceGo [q] new (-1) 0 s := by
+  intro s
+  induction s with
+  | nil =>
+    intro f hf
+    cases f with
+    | zero => omega
+    | succ f => simp [Lib.replaceAllAux, Glb.Strutil.replaceGo]
+  | cons c rest ih =>
+    intro f hf
+    cases f with
+    | zero => omega
+    | succ f =>
+      have := ih f (by simp at hf; omega)
+      simp [Lib.replaceAllAux, Glb.Strutil.replaceGo, this]
+
+theorem replaceAll_single (q : UInt8) (new s : Bytes) :
+    Lib.replaceAll s [q] new = Glb.Strutil.replaceGo [q] new (-1) 0 s := by
+  unfold Lib.replaceAll
+  exact replaceAllAux_single q new s _ (by omega)
+
+theorem ShellEscape_eq (s : Bytes) : ShellEscape s = .ok (Glb.Strutil.shellEscape s) := by
+  unfold ShellEscape
+  simp [pure, Except.pure, replaceAll_single, Glb.Strutil.shellEscape, Glb.Strutil.shellEscapeWith,
+    Glb.Strutil.shellEscapeGen, Glb.Generated.shellEscapePrefix, Glb.Generated.shellEscapeOld,
+    Glb.Generated.shellEscapeNew, Glb.Generated.shellEscapeSuffix, Glb.Generated.shellEscapeCount]
+
+/-- plain equality, panics included: both sides take `s[2:]` with the same bounds check and the same
+    payload (no panic is reachable anyway: the prefix test gives `len s ≥ 2`) -/
+theorem ShellEscapeExceptTilde_eq (s : Bytes) :
+    ShellEscapeExceptTilde s = Glb.Strutil.shellEscapeExceptTilde s := by
+  unfold ShellEscapeExceptTilde
+  have h2 : (2 : Int) = ((2 : Nat) : Int) := rfl
+  simp only [ShellEscape_eq, h2, sliceFrom_nat, Glb.Strutil.shellEscapeExceptTilde,
+    Glb.Strutil.shellEscapeExceptTildeGen, Glb.Strutil.hasPrefix, Lib.hasPrefix,
+    Glb.Generated.tildePrefix, Glb.Generated.tildeKeep, Glb.Generated.tildeSliceLow]
+  by_cases h : ([126, 47] : Bytes).isPrefixOf s = true
+  · simp only [h, if_true, bind, Except.bind, pure, Except.pure]
+    cases slice? s 2 s.length <;> simp
+  · simp [h, pure, Except.pure]
 
 end Glb.Tie.TrStrutil
